@@ -273,6 +273,10 @@ def do_replay(prop: str, path: str) -> int:
         from .props import persist_env
         persist_env.replay(case)
         return 0
+    if prop == "C17" and "delivery" in case:
+        # C17: writes and a disconnect over a real loopback connection to a peer with a reading policy: re-executed
+        from .props import stream
+        return stream.replay(case)
     if "churn" in case:
         # C16: a registry of realistic size changed by a concurrent task k loop iterations after an anchor
         from .props import churn
